@@ -228,9 +228,32 @@ def hardfile_probe(exe, seed):
         if cb[-1] and cb[-1][0] != "= live=0": bad.append((ops, f"after closing everything the library still holds allocations: {cb[-1][0]}"))
     return bad
 
+def getdel_probe(exe, seed):
+    """adfGetDelEnt / adfFreeDelList (the listing of deleted entries that undelete tools start from; real code only):
+    nothing deleted, some entries deleted, and the second partition of a partitioned disk (block numbers are
+    volume-relative).  Judged: sanitizer reports and the allocation count after closing everything."""
+    hx = gen.hx
+    rng = vlib.rng_for(seed, "getdel")
+    dt = rng.randrange(8)
+    cases = []
+    cases.append(gen.prologue(dt, clock=(2019, 9, 9, 9, 9, 9)) + ["getdel 0 0", "unmount 0 0", "closedev 0", "allocs"])
+    cases.append(gen.prologue(dt, clock=(2019, 9, 9, 9, 9, 9)) + [f"open 1 0 0 {hx(b'x')} 2", f"write 1 {rng.choice([0, 700, 40000])} 1", "close 1", f"mkdir 0 0 {hx(b'd')}",
+                 f"open 1 0 0 {hx(b'keep')} 2", "close 1", f"remove 0 0 {hx(b'x')}", f"remove 0 0 {hx(b'd')}", "getdel 0 0", "getdel 0 0", "unmount 0 0", "closedev 0", "allocs"])
+    k = rng.choice([1, 1, 2])
+    parts = [(2, 60, b"p0", 1), (62, 70, b"p1", rng.randrange(8)), (132, 60, b"p2", rng.randrange(8))]
+    cases.append(["newdev 0 200 2 32", "clock 2014 4 5 6 7 8", "mkhd 0 3 " + " ".join(f"{a} {l} {hx(nm)} {t}" for a, l, nm, t in parts), "closedev 0", "opendev 0 0",
+                  f"mount 0 {k} 0", f"open 1 0 {k} {hx(b'x')} 2", "write 1 700 1", "close 1", f"remove 0 {k} {hx(b'x')}", f"getdel 0 {k}", f"unmount 0 {k}", "closedev 0", "allocs"])
+    bad = []
+    for ops in cases:
+        rc, cb, err = vlib.run_c(exe, ops, timeout=300)
+        san = vlib.sanitizer_report(err)
+        if san or rc != 0: bad.append((ops, f"{san or 'harness exit %d' % rc} in a history that lists the deleted entries (adfGetDelEnt)")); continue
+        if cb[-1] and cb[-1][0] != "= live=0": bad.append((ops, f"after listing the deleted entries and closing everything the library still holds allocations: {cb[-1][0]}"))
+    return bad
+
 def probe(res, exe, n):
     """returns a list of (ops, complaint)"""
-    bad = conflict_probe(exe, res.seed) + hardfile_probe(exe, res.seed)
+    bad = conflict_probe(exe, res.seed) + hardfile_probe(exe, res.seed) + getdel_probe(exe, res.seed)
     for dt in (5, 7):
         ops = dircache_spill_case(exe, dt)
         if not ops: continue
